@@ -126,100 +126,116 @@ def final_checks(w):
     dl = np.array(sorted(dirs[L - 1]), dtype=int)
     if len(dl) and q.choice(2):
         g[dl] = rng.uniform(-1, 1, len(dl))
-    xs = g.copy()
-    Aff = A[free][:, free].tocsc()
-    xs[free] = scipy.sparse.linalg.spsolve(Aff, f[free] - (A[free][:, dl] @ g[dl] if len(dl) else 0.0))
-    if not np.all(np.isfinite(xs)):
-        ctx.count('skipped.singular')
-        return
-
-    def enorm(e):
-        ef = e[free]
-        return float(np.sqrt(max(0.0, ef @ (Aff @ ef))))
-
-    Ps = ctx.call('virtual_hierarchy_prolongators', hs.virtual_hierarchy_prolongators)
-    if Ps is RAISED():
-        return
-    thb3 = bool(hs.truncate and L >= 3)
-    combos = [(s, sm) for s in STRATEGIES for sm in SMOOTHERS]
-    ncomb = 4 if ctx.tier == 'quick' else 8
-    chosen = [combos[i] for i in q.sample_positions(len(combos), ncomb)]
-    for strat, sm in chosen:
-        steps = 1 + q.choice(2)
-        step = ctx.call('local_mg_step', solvers.local_mg_step, hs, A, f, Ps, inds_by_strategy[strat], sm, steps)
-        if step is RAISED():
+    for round_ in range(2):
+        if round_ == 1:
+            # the SAME matrix object is changed in place (a time step, a new coefficient, a rescaling: A.data is
+            # overwritten, the sparsity pattern stays) and the multigrid cycle is set up again with the same space
+            # object: nothing the library remembered about the old values may be used
+            if q.choice(5) >= 2:
+                break
+            fac = [40.0, 7.0, 300.0][q.choice(3)]
+            coo = A.tocoo()
+            if q.choice(2):
+                d = np.exp(rng.uniform(-1, 1, nd)) * np.sqrt(fac)
+            else:
+                d = np.full(nd, np.sqrt(fac))
+            A.data *= d[coo.row] * d[coo.col]
+            ctx.log(['operator-changed-in-place', fac])
+            ctx.count('operator.changed.in-place')
+        xs = g.copy()
+        Aff = A[free][:, free].tocsc()
+        xs[free] = scipy.sparse.linalg.spsolve(Aff, f[free] - (A[free][:, dl] @ g[dl] if len(dl) else 0.0))
+        if not np.all(np.isfinite(xs)):
+            ctx.count('skipped.singular')
             return
-        s = sig('multigrid', strategy=strat, smoother=sm, thb3=thb3)
-        # fixed point
-        x1 = ctx.call('mg_step(x*)', step, xs.copy())
-        if x1 is RAISED():
+
+        def enorm(e):
+            ef = e[free]
+            return float(np.sqrt(max(0.0, ef @ (Aff @ ef))))
+
+        Ps = ctx.call('virtual_hierarchy_prolongators', hs.virtual_hierarchy_prolongators)
+        if Ps is RAISED():
             return
-        scale = max(1.0, np.abs(xs).max())
-        ctx.check(np.abs(x1 - xs).max() <= 1e-8 * scale, 'mg-fixed-point',
-                  lambda: '%s/%s x%d: exact solution moves by %.3g (numdofs %d, %d levels, truncate=%s)'
-                  % (strat, sm, steps, np.abs(x1 - xs).max(), nd, L, hs.truncate), s)
-        # Dirichlet values untouched, energy does not increase with exact subspace solves
+        thb3 = bool(hs.truncate and L >= 3)
+        combos = [(s, sm) for s in STRATEGIES for sm in SMOOTHERS]
+        ncomb = 4 if ctx.tier == 'quick' else 8
+        chosen = [combos[i] for i in q.sample_positions(len(combos), ncomb)]
+        for strat, sm in chosen:
+            steps = 1 + q.choice(2)
+            step = ctx.call('local_mg_step', solvers.local_mg_step, hs, A, f, Ps, inds_by_strategy[strat], sm, steps)
+            if step is RAISED():
+                return
+            s = sig('multigrid', strategy=strat, smoother=sm, thb3=thb3)
+            # fixed point
+            x1 = ctx.call('mg_step(x*)', step, xs.copy())
+            if x1 is RAISED():
+                return
+            scale = max(1.0, np.abs(xs).max())
+            ctx.check(np.abs(x1 - xs).max() <= 1e-8 * scale, 'mg-fixed-point',
+                      lambda: '%s/%s x%d: exact solution moves by %.3g (numdofs %d, %d levels, truncate=%s)'
+                      % (strat, sm, steps, np.abs(x1 - xs).max(), nd, L, hs.truncate), s)
+            # Dirichlet values untouched, energy does not increase with exact subspace solves
+            x0 = g.copy()
+            x0[free] = rng.uniform(-1, 1, len(free))
+            x1 = ctx.call('mg_step(x)', step, x0.copy())
+            if x1 is RAISED():
+                return
+            if len(dl):
+                ctx.check(np.array_equal(x1[dl], g[dl]), 'mg-touches-dirichlet',
+                          lambda: '%s/%s changed Dirichlet dofs' % (strat, sm), s)
+            if sm == 'exact':
+                e0, e1 = enorm(xs - x0), enorm(xs - x1)
+                ctx.check(e1 <= e0 * (1 + 1e-9) + 1e-12 * np.sqrt(scal), 'mg-energy-increase',
+                          lambda: '%s/exact: energy error %.6g -> %.6g (numdofs %d, %d levels, truncate=%s)'
+                          % (strat, e0, e1, nd, L, hs.truncate), s)
+            ctx.count('mg.step.checked')
+        # ---- stopping rules of the drivers
+        strat, sm = combos[q.choice(len(combos))]
+        maxiter = [1, 2, 5, 30][q.choice(4)]
+        tol = [1e-1, 1e-3, 1e-8][q.choice(3)]
+        calls = {'n': 0}
+        step = solvers.local_mg_step(hs, A, f, Ps, inds_by_strategy[strat], sm, 1)
+
+        def counted(x):
+            calls['n'] += 1
+            return step(x)
         x0 = g.copy()
-        x0[free] = rng.uniform(-1, 1, len(free))
-        x1 = ctx.call('mg_step(x)', step, x0.copy())
-        if x1 is RAISED():
-            return
-        if len(dl):
-            ctx.check(np.array_equal(x1[dl], g[dl]), 'mg-touches-dirichlet',
-                      lambda: '%s/%s changed Dirichlet dofs' % (strat, sm), s)
-        if sm == 'exact':
-            e0, e1 = enorm(xs - x0), enorm(xs - x1)
-            ctx.check(e1 <= e0 * (1 + 1e-9) + 1e-12 * np.sqrt(scal), 'mg-energy-increase',
-                      lambda: '%s/exact: energy error %.6g -> %.6g (numdofs %d, %d levels, truncate=%s)'
-                      % (strat, e0, e1, nd, L, hs.truncate), s)
-        ctx.count('mg.step.checked')
-    # ---- stopping rules of the drivers
-    strat, sm = combos[q.choice(len(combos))]
-    maxiter = [1, 2, 5, 30][q.choice(4)]
-    tol = [1e-1, 1e-3, 1e-8][q.choice(3)]
-    calls = {'n': 0}
-    step = solvers.local_mg_step(hs, A, f, Ps, inds_by_strategy[strat], sm, 1)
-
-    def counted(x):
-        calls['n'] += 1
-        return step(x)
-    x0 = g.copy()
-    buf = io.StringIO()
-    with contextlib.redirect_stdout(buf):
-        r = ctx.call('iterative_solve', solvers.iterative_solve, counted, A, f, x0=x0.copy(), active_dofs=free,
-                     tol=tol, maxiter=maxiter)
-    if r is RAISED():
-        return
-    x, its = r
-    res0 = np.linalg.norm((f - A @ x0)[free])
-    res = np.linalg.norm((f - A @ x)[free])
-    s = sig('driver', fn='iterative_solve')
-    if its == np.inf:
-        ctx.check(calls['n'] == maxiter, 'driver-inf-without-maxiter',
-                  lambda: 'returned inf after %d of %d allowed steps' % (calls['n'], maxiter), s)
-        ctx.count('driver.hit.maxiter')
-    else:
-        ctx.check(its == calls['n'], 'driver-iteration-count', lambda: 'reported %r iterations, performed %d'
-                  % (its, calls['n']), s)
-        ctx.check(its <= maxiter, 'driver-exceeds-maxiter', '%r > %d' % (its, maxiter), s)
-        ctx.check(res < tol * res0 * (1 + 1e-9), 'driver-stops-early',
-                  lambda: 'stopped after %r iterations with residual reduction %.3g >= tol %.3g'
-                  % (its, res / res0, tol), s)
-        ctx.count('driver.converged')
-    # solve_hmultigrid (zero start, Dirichlet values must be zero for its residual rule)
-    if not np.any(g):
+        buf = io.StringIO()
         with contextlib.redirect_stdout(buf):
-            r = ctx.call('solve_hmultigrid', solvers.solve_hmultigrid, hs, A, f, strategy=strat, smoother=sm,
+            r = ctx.call('iterative_solve', solvers.iterative_solve, counted, A, f, x0=x0.copy(), active_dofs=free,
                          tol=tol, maxiter=maxiter)
         if r is RAISED():
             return
         x, its = r
-        res0 = np.linalg.norm(f[free])
+        res0 = np.linalg.norm((f - A @ x0)[free])
         res = np.linalg.norm((f - A @ x)[free])
-        s = sig('driver', fn='solve_hmultigrid')
+        s = sig('driver', fn='iterative_solve')
         if its == np.inf:
-            ctx.count('hmultigrid.hit.maxiter')
+            ctx.check(calls['n'] == maxiter, 'driver-inf-without-maxiter',
+                      lambda: 'returned inf after %d of %d allowed steps' % (calls['n'], maxiter), s)
+            ctx.count('driver.hit.maxiter')
         else:
-            ctx.check(its <= maxiter and res < tol * res0 * (1 + 1e-9), 'hmultigrid-stops-early',
-                      lambda: 'reported %r iterations, residual reduction %.3g, tol %.3g' % (its, res / res0, tol), s)
-            ctx.count('hmultigrid.converged')
+            ctx.check(its == calls['n'], 'driver-iteration-count', lambda: 'reported %r iterations, performed %d'
+                      % (its, calls['n']), s)
+            ctx.check(its <= maxiter, 'driver-exceeds-maxiter', '%r > %d' % (its, maxiter), s)
+            ctx.check(res < tol * res0 * (1 + 1e-9), 'driver-stops-early',
+                      lambda: 'stopped after %r iterations with residual reduction %.3g >= tol %.3g'
+                      % (its, res / res0, tol), s)
+            ctx.count('driver.converged')
+        # solve_hmultigrid (zero start, Dirichlet values must be zero for its residual rule)
+        if not np.any(g):
+            with contextlib.redirect_stdout(buf):
+                r = ctx.call('solve_hmultigrid', solvers.solve_hmultigrid, hs, A, f, strategy=strat, smoother=sm,
+                             tol=tol, maxiter=maxiter)
+            if r is RAISED():
+                return
+            x, its = r
+            res0 = np.linalg.norm(f[free])
+            res = np.linalg.norm((f - A @ x)[free])
+            s = sig('driver', fn='solve_hmultigrid')
+            if its == np.inf:
+                ctx.count('hmultigrid.hit.maxiter')
+            else:
+                ctx.check(its <= maxiter and res < tol * res0 * (1 + 1e-9), 'hmultigrid-stops-early',
+                          lambda: 'reported %r iterations, residual reduction %.3g, tol %.3g' % (its, res / res0, tol), s)
+                ctx.count('hmultigrid.converged')
